@@ -120,9 +120,23 @@ impl<C: Config> InputSession<C> {
         engine.computation_graph.reset_statistic();
         engine.clear_dirtied_queries();
 
+        #[cfg(feature = "verif")]
+        qbice_storage::verif::task_point(
+            "ci_before_dirty",
+            qbice_storage::verif::PointKind::Await,
+        )
+        .await;
+
         transaction = engine
             .dirty_propagate_from_batch(dirty_batch.into_iter(), transaction)
             .await;
+
+        #[cfg(feature = "verif")]
+        qbice_storage::verif::task_point(
+            "ci_after_dirty",
+            qbice_storage::verif::PointKind::Preempt,
+        )
+        .await;
 
         engine.submit_write_buffer(transaction);
     }
@@ -260,6 +274,13 @@ impl<C: Config> InputSession<C> {
         let query_id = QueryID::new::<Q>(query_hash);
 
         let mut snapshot = self.engine.get_exclusive_snapshot(query_hash).await;
+
+        #[cfg(feature = "verif")]
+        qbice_storage::verif::task_point(
+            "si_after_snapshot",
+            qbice_storage::verif::PointKind::Preempt,
+        )
+        .await;
 
         let query_value_fingerprint = self.engine.hash(&new_value);
 
